@@ -111,6 +111,9 @@ fn release(ctl: &Arc<(Mutex<Ctl>, Condvar)>, h: MerkleHash, ok: bool, max_wait_m
 pub fn run_child(ctx: &mut Ctx) {
     let tp = Arc::new(ThreadPool::new().expect("threadpool"));
     utils::verif_hooks::set_event_callback(Some(Arc::new(|name, data| { EVENTS.lock().unwrap().push((name, data)); })));
+    // between two iterations of the shard upload loop the uploads started so far get time to finish (so that a failed one is
+    // "already finished" when the next shard is started, independent of the machine's load)
+    utils::verif_hooks::set_callback(Some(Arc::new(|name| { if name == "session.shard_upload.next" { std::thread::sleep(Duration::from_millis(4)); } })));
     let tmp_root = PathBuf::from(std::env::var("TMPDIR").unwrap_or("/verif/run/tmp".into())).join(format!("faults-{}-{}", std::process::id(), ctx.seed));
     let nscen = if ctx.quick() { 40 } else { 600 };
     let target: usize = std::env::var("HF_XET_TARGET_CHUNK_SIZE").unwrap().parse().unwrap();
@@ -289,5 +292,6 @@ pub fn run_child(ctx: &mut Ctx) {
         let _ = std::fs::remove_dir_all(&base);
     }
     utils::verif_hooks::set_event_callback(None);
+    utils::verif_hooks::set_callback(None);
     let _ = std::fs::remove_dir_all(&tmp_root);
 }
